@@ -87,6 +87,8 @@ def draw_common(rng, nv=None, compaction=None, small_batches=None):
                # forgiving stand-in; descriptor numbers re-used like a kernel does (lowest free) or never
                poller=rng.choice(['sim', 'poll', 'poll', 'select']),
                fd_reuse=rng.random() < 0.5,
+               # a dial towards a destination that is cut off right now may fail at once (ENETUNREACH) instead of pending
+               sync_connect_fail=rng.choice([0.0, 0.0, 0.3, 0.8]),
                sched=dict(DEFAULT_SCHED))
     if conf['logCompactionBatchSize'] < 64 or conf['appendEntriesBatchSizeBytes'] < 30:
         # hundreds of tiny chunks per snapshot / entry: on a machine that slow a transfer would take
